@@ -37,7 +37,7 @@ theorem statm_roundtrip (c : Cfg) (hg : c.Good) (pagesize : Nat) (r : Statm) :
     intro f hf
     obtain ⟨n, _, rfl⟩ := List.mem_map.mp hf
     exact ⟨renderDec_ne_nil n, renderDec_noWs n⟩
-  rw [hsplit, hg.statmTake, hg.statmOrder]
+  rw [hsplit, hg.statmTake, hg.statmOrder, hg.statmFixedScale]
   simp [Statm.cols, parseDec_renderDec, specMemInfo]
 
 /-! ### memory_percent -/
